@@ -3,8 +3,8 @@ import re
 
 from ..model import qast
 
-CELLS = ['', 'a', 'b', 'ab', 'ba', '0', '1', '2', '10', '-1', '2.5', 'x|y', 'a b', 'É', "it's", 'q"t', ',', 'NR', 'None', 'a1', ' ', '\ufeffb']      # the last one: a byte order mark is data when it is in a cell
-SMALL_CELLS = ['a', 'b', 'ab', '1', '2', '10', '']
+CELLS = ['', 'a', 'b', 'ab', 'ba', '0', '1', '2', '10', '-1', '2.5', 'x|y', 'a b', 'É', "it's", 'q"t', ',', 'NR', 'None', 'a1', ' ', '\ufeffb', 'e\u0301b', '\u00e9a', 'e\u0301']      # a byte order mark is data when it is in a cell; canonically equivalent spellings are different strings (compared, sorted and deduplicated code point by code point)
+SMALL_CELLS = ['a', 'b', 'ab', '1', '2', '10', '', 'e\u0301b', '\u00e9a', 'e\u0301']
 NAME_POOL = ['name', 'age', 'x1', 'Col_3', 'home_town', 'x y', 'Dist (km)', 'q"uote', "it's", 'Total%', 'k#1', 'été', 'b_c', 'zz', 'v', 'A', 'a_', 'ID', 'x-y', '[k]', 'back\\slash', 'tab\there', '', 'NR', 'NF', 'NU', 'col1', 'col2', 'col3', 'col4', 'dir\\new', 'a\\tb\\r']
 STR_LITS = ['', 'x', 'ab', ' ', 'a,b', 'a)b', '(', 'x, y', "it's", 'q"t', '[1]', 'É', '%', 'a1', '#', '=', ';', '$$', 'a$&b', 'US$', '$1', "$'", 'x\\\\', 'such as x, y', 'n,COUNT(*)', 'cols: a, *, b', ' as z', 'top 1 distinct', 'a\u2028b', 'x\x85 y', 'p\x0c#q', 'l\u2029 #r', '\x1c', 'a\tbc', 'x\t y', '\t\t', 'reply from a friend', 'x FROM  A y', 'then update a set b', 'join b on a1', 'group by a1 ']
 LIKE_PATS = ['%', 'a%', '%b', '_', 'a_', '%a%', 'ab', '_%', '1%', '%.%', 'x|y', '']
